@@ -24,7 +24,7 @@ for d in sorted((V / "refactors").iterdir()):
     alarms, noverdict = [], []
     try:
         for p in props:
-            r = subprocess.run(["/venv/bin/python", "-m", "sa.check", p], cwd=V, capture_output=True, text=True)
+            r = subprocess.run(["/venv/bin/python", "-m", "sa.check", p], cwd=V, capture_output=True, text=True, env={**__import__("os").environ, "SA_EVIDENCE_DIR": "/tmp/sa_campaign_evidence"})
             if r.returncode == 1:
                 alarms.append(p)
             elif r.returncode == 2:
@@ -34,7 +34,7 @@ for d in sorted((V / "refactors").iterdir()):
     meta["checks"] = {"false_alarms": alarms, "no_verdict": noverdict, "silent": len(props) - len(alarms) - len(noverdict)}
     (d / "meta.json").write_text(json.dumps(meta, indent=1) + "\n")
     rows.append((d.name, meta))
-subprocess.run(["git", "-C", str(V), "checkout", "--", "evidence"])
+__import__("shutil").rmtree("/tmp/sa_campaign_evidence", ignore_errors=True)
 out = ["# Behaviour-preserving refactorings and the verdicts of the checks", "",
        "Written by independent sub-agents (given only the property text and a scratch worktree; asked to restructure the code the property is",
        "anchored in without changing behaviour), applied to /repo one at a time by `tools/refactor_report.py`.  Every check must stay silent.", "",
